@@ -132,8 +132,13 @@ def cases(draw, tier="quick"):
     vstr, order = draw(gen.orders(used, env, exact_weight=4))
     pts = draw(gen.points(all_var_names(env), k=3))
     cfg = draw(st.sampled_from(["default", "default", "default", "lowthr"]))
+    extras = [n for n in all_var_names(env) if n not in set(order)]
+    order2 = list(order)
+    for n in draw(st.permutations(extras))[:draw(st.integers(0, min(2, len(extras))))] if extras else []:
+        order2.insert(draw(st.integers(0, len(order2))), n)
+    newp = {p["name"]: draw(st.sampled_from([0.5, 1.0, 2.0, -1.5, 3.0, 0.25])) for p in env["params"]}
     return {"env": env, "exprs": exprs, "strata": strata, "order": list(order), "vstratum": vstr,
-            "points": pts, "config": cfg}
+            "points": pts, "config": cfg, "order2": order2, "newp": newp}
 
 
 def strategy(tier):
@@ -225,6 +230,49 @@ def check(case):
                 return r_
         if judged == 0:
             return Result.discard("no-regular-point", classes)
+        # (a) parameters updated AFTER compilation: the same callables must follow;  (b) the same expression
+        # objects compiled against a second variable list
+        stages = []
+        if env["params"] and case.get("newp"):
+            for p_ in env["params"]:
+                b.params[p_["name"]].set(case["newp"][p_["name"]])
+            stages.append(("params-updated", order, jf, gfs, case["newp"]))
+        o2 = case.get("order2")
+        if o2 and o2 != list(order):
+            try:
+                V2 = [objs[n] for n in o2]
+                stages.append(("second-V", o2, compile_jacobian(es, V2), [compile_gradient(e_, V2) for e_ in es],
+                               case.get("newp") if env["params"] and case.get("newp") else pv))
+            except Exception as ex:
+                return Result.violation(f"compile-raises:{exc_label(ex)}", f"{[show(r) for r in exprs]} second V={o2}: {ex!r}", classes)
+        for tag, od, jf_, gfs_, pv_ in stages:
+            classes.append("stage:" + tag)
+            for pt in case["points"]:
+                refs, shadows, ok = [], [], True
+                for r in exprs:
+                    j, sc = jet_ref(env, r, od, pt, pv_, second=False)
+                    if not sc.ok or sc.maxabs > 1e6 or sc.sing < 0.05:
+                        ok = False
+                        break
+                    refs.append(j.g)
+                    shadows.append(j.ag)
+                if not ok:
+                    continue
+                ref, shadow = np.array(refs), np.array(shadows)
+                x = np.array([pt[n] for n in od], dtype=float)
+                try:
+                    J = jf_(x.copy())
+                    gs = [g(x.copy()) for g in gfs_]
+                except Exception as ex:
+                    return Result.violation(f"call-raises:{exc_label(ex)}", f"{tag}: {[show(r) for r in exprs]} V={od} at {pt}: {ex!r}", classes)
+                c2 = dict(case, order=od)
+                r_ = _cmp(J, ref, shadow, f"compile_jacobian[{tag}]", c2, pt, classes, tag)
+                if r_:
+                    return r_
+                for i, gv in enumerate(gs):
+                    r_ = _cmp(np.asarray(gv, dtype=float).reshape(-1), ref[i], shadow[i], f"compile_gradient[{i}][{tag}]", c2, pt, classes, tag)
+                    if r_:
+                        return r_
     generic = path == "jacobian_fn" and all(p == "symbolic_gradient" for p in gpaths)
     nontrivial = (not generic) or case["vstratum"] in ("perm", "superset", "decl")
     return Result.ok(nontrivial, classes)
